@@ -45,7 +45,11 @@ func oamProgram(rng *rand.Rand, n int) []int {
 		case 12:
 			emit(0x08, rng.Intn(256), 0xfe) // LD (FExx),SP
 		case 13:
-			emit(0xf9) // LD SP,HL
+			if rng.Intn(3) == 0 {
+				emit(0x3e, 0xc0+rng.Intn(0x20), 0xe0, 0x46) // start an OAM DMA from work RAM
+			} else {
+				emit(0xf9) // LD SP,HL
+			}
 		default:
 			for k := rng.Intn(6); k > 0; k-- {
 				emit(0x00)
